@@ -8,6 +8,8 @@ def run(ctx):
     # design level: the sender-side flow-control algorithm (transcribed, with the F3 repair) keeps every limit
     ctx.mc("MC_SendFlow")
     traces = ctx.e2e(E.plan(ctx, [("late_reset", 16), ("reset", 8), ("lossy", 6), ("tiny", 4), ("clean", 2)]))
+    # ... plus every placement of one (thorough: two) fault(s) on the first datagrams of either direction, enumerated by TLC
+    traces.update(ctx.e2e_sched(8, 1 if ctx.quick else 2))
     ctx.validate_families(traces, "Trace_EndpointTx", E.TX_KINDS)
     ctx.assume("retransmitted bytes are compared through the position-determined payload (bytes of offset o are always payload(o))")
     ctx.assume("close behaviour is observed at the network: datagrams leaving an endpoint after its first CONNECTION_CLOSE must be byte-identical copies, at most one per datagram that reached it (plus the first)")
